@@ -182,6 +182,42 @@ func TestC14Steps(t *testing.T) {
 		}
 		runClientScenarioAs(t, idx, "c14-steps", sc, em, "C14Step", nil)
 	}
+	// a call made on a context that is ALREADY over when the open gets to work (a retry loop re-opening after its deadline):
+	// parked after the fail-fast check, the context ends, released - the open fails cleanly, nothing stays registered
+	idxA := n + 1000
+	for _, first := range []string{"stream", "unary"} {
+		for _, end := range []string{"cancel", "expire"} {
+			for v := 0; v < 3; v++ {
+				acts := []CAct{{Op: first, B: 52, Park: true}, {Op: end, C: 0}}
+				if v == 1 {
+					acts = append(acts, CAct{Op: "unary", B: 53}, CAct{Op: "deliver", Env: &EnvSpec{Call: 1, Hdr: "ok:0", Body: i64(5300), Trl: "ok:0"}})
+				}
+				acts = append(acts, CAct{Op: "release", C: 0}, CAct{Op: "tick", B: 1000})
+				if v == 2 {
+					acts = append(acts, CAct{Op: first, B: 54, Park: true}, CAct{Op: end, C: 1}, CAct{Op: "release", C: 1}, CAct{Op: "tick", B: 60})
+				}
+				sc := clientScenario{Acts: acts, WithStats: v == 1, Tags: []string{"context-already-over-at-open", "first:" + first, end}}
+				if want(idxA) {
+					runClientScenarioAs(t, idxA, "c14-steps", sc, em, "C14Step", nil)
+				}
+				idxA++
+			}
+		}
+	}
+	// every reply shape a peer can send to a unary call (body only, empty envelope, header only, status without trailer ...:
+	// a non-goat peer), then time passes: the call has returned, nothing stays registered
+	rs := rand.New(rand.NewSource(1))
+	for sh := range envShapes(0, rs) {
+		for _, st := range []bool{false, true} {
+			acts := []CAct{{Op: "unary", B: 55}, {Op: "deliver", Env: envShapes(0, rand.New(rand.NewSource(int64(sh))))[sh]}, {Op: "tick", B: 1000},
+				{Op: "unary", B: 56}, {Op: "deliver", Env: envShapes(1, rand.New(rand.NewSource(int64(sh + 7))))[sh]}, {Op: "tick", B: 60}}
+			sc := clientScenario{Acts: acts, WithStats: st, Tags: []string{"unary-reply-shape", fmt.Sprintf("shape=%d", sh)}}
+			if want(idxA) {
+				runClientScenarioAs(t, idxA, "c14-steps", sc, em, "C14Step", nil)
+			}
+			idxA++
+		}
+	}
 	// unusual caller metadata on an open (it succeeds or fails cleanly), then the call ends (cancel / reply / read failure):
 	// the registry is back to idle
 	idx := n
@@ -464,6 +500,10 @@ func (l *longRPC) run(cc *goat.ClientConn) {
 	<-l.stage
 	l.started.Store(true)
 	defer l.done.Store(true)
+	if l.outcome == "predone" {
+		// the call is made on a context that is already over (a retry loop re-opening after its deadline)
+		l.cancel()
+	}
 	tok := int64(1 + l.n%400)
 	if l.kind == "Unary" {
 		var out wrapperspb.BytesValue
@@ -584,7 +624,7 @@ func TestC14Long(t *testing.T) {
 	em.Marker("begin", idx)
 	r := newRand(1401)
 	kinds := []string{"Unary", "Bidi", "CStream", "SStream"}
-	outcomes := []string{"ok", "status", "cancel", "deadline", "reset", "failopen", "sendfail", "srvabort", "cancelnow", "bigmsg", "deadlinemd"}
+	outcomes := []string{"ok", "status", "cancel", "deadline", "reset", "failopen", "sendfail", "srvabort", "cancelnow", "bigmsg", "deadlinemd", "predone"}
 	var samples []string
 	hist := map[string]int{}
 	maxInflight, idleSamples, maxSrv, srvLeaked, nbig := 0, 0, 0, 0, 0
